@@ -144,11 +144,22 @@ Proof.
   - apply US_point in I1, I2, I3. apply ZS_point in I4. subst. apply CN_und; reflexivity.
 Qed.
 
+Lemma filter_length_le' {A} (f : A -> bool) : forall l, length (filter f l) <= length l.
+Proof. induction l as [|a l IH]; cbn [filter length]; [lia|]. destruct (f a); cbn [length]; lia. Qed.
+
+(* CPython's 4300-digit limit on str -> int conversion does not bite on short strings *)
+Lemma short_not_too_many t : length t <= 100 -> too_many_digits t = false.
+Proof.
+  intros H. unfold too_many_digits, MAX_STR_DIGITS. apply N.ltb_ge. pose proof (filter_length_le' is_digit t). lia.
+Qed.
+
 Lemma py_int_unsigned t :
+  length t <= 100 ->
   (forall c r, strip t = c :: r -> c <> 43%N /\ c <> 45%N) ->
   py_int t = match int_digits (strip t) 0 false with Some n => Some (Z.of_N n) | None => None end.
 Proof.
-  intros H. unfold py_int. destruct (strip t) as [|c r]; [reflexivity|]. destruct (H c r eq_refl) as [H1 H2].
+  intros HL H. unfold py_int. rewrite (short_not_too_many t HL). unfold py_int_core.
+  destruct (strip t) as [|c r]; [reflexivity|]. destruct (H c r eq_refl) as [H1 H2].
   destruct c as [|p]; [reflexivity|].
   let rec bits p := first [ reflexivity | (exfalso; apply H1; reflexivity) | (exfalso; apply H2; reflexivity)
                           | destruct p as [p|p|]; bits p ] in bits p.
@@ -159,7 +170,7 @@ Proof.
   intros H1 H2. destruct (dig_facts d1 H1) as (_ & S1 & D1 & U1 & P1 & M1 & _). destruct (dig_facts d2 H2) as (_ & S2 & D2 & U2 & _).
   assert (St : strip [d1; d2] = [d1; d2]).
   { unfold strip, strip_by, rstrip_by, lstrip_by. cbn [rev app]. rewrite S1. cbn [rev app]. rewrite S2. reflexivity. }
-  rewrite py_int_unsigned; rewrite St.
+  rewrite py_int_unsigned; [rewrite St| cbn; lia | rewrite St].
   - apply N.eqb_neq in U1, U2. unfold is_digit in D1, D2.
     destruct (digit_val d1) as [v1|] eqn:E1; [|discriminate]. destruct (digit_val d2) as [v2|] eqn:E2; [|discriminate].
     cbn [int_digits]. rewrite U1, E1, U2, E2. discriminate.
